@@ -149,6 +149,18 @@ impl Pat for Ps {
     const HAS_OOC: bool = true;
 
     fn create(node: &Node<S>, name: &ServiceName, c: &Value) -> Result<Self::H, String> {
+        if geti(c, "tv") == 2 {
+            // FlatBuffers payload for which no schema file exists: documented to fail with
+            // UnableToAcquireTypeDefinition (after the static config was already written)
+            return match node
+                .service_builder(name)
+                .publish_subscribe::<iceoryx2::service::marker::Flatbuffer<u64>>()
+                .create()
+            {
+                Ok(_h) => Err("CreatedWithoutSchema".to_string()),
+                Err(e) => Err(dbg(e)),
+            };
+        }
         ps_builder(node, name, c).create_with_attributes(&specifier(c)).map_err(dbg)
     }
     fn open(node: &Node<S>, name: &ServiceName, c: &Value) -> Result<Self::H, String> {
